@@ -140,6 +140,21 @@ CLAIMED.update({
   ref="DESIGN.md 4/C18, 9"),
 })
 
+CLAIMED.update({
+ "C20": dict(
+  text="Deductive proof of the sequential rules of push/pull: (1) PushPullManager.addPush sends a request only for an item the holder does not "
+       "have, asks the first announcer at once, asks a further announcer at once only while the per-item counter is below the holder's cap and "
+       "parks announcers at or over the cap (obligations attached to the call sites of makeRequest / AddPendingPush); (2) one arbitrary iteration of "
+       "DefaultPushTracker.loop sends a follow-up request only after the holder denied having the item and the pull registry still listed it, and "
+       "registers the pull it sent; (3) the queue of parked announcers: Add inserts exactly one entry at the position sort.Search returns "
+       "(predecessor not later, successor later, everything else shifted unchanged, an ordered prefix stays ordered), Remove deletes exactly the "
+       "indexed entry and keeps the order, Len/Peek are exact; all four never index out of range (no-panic obligations).",
+  note="Sequential semantics only: interleavings of announcements, arrivals and timeouts, the pull delay (time.Sleep), races and unbounded growth "
+       "are not decided (no concurrency in contracts). Trusted: sync.Map, go-cache, time.Time comparisons compare instants, sort.Search returns a "
+       "boundary index of its predicate.",
+  ref="DESIGN.md 4/C20, 9"),
+})
+
 PENDING = {
 }
 
